@@ -159,6 +159,35 @@ def _same_layout_create(rng, cfg, layout, symmetric, colspec, maxpx, density=Non
     return op
 
 
+def perturb_layout(rng, lay):
+    """A layout that differs from `lay` in exactly one respect."""
+    import copy
+    out = copy.deepcopy(lay)
+    out["kind"] = "perturbed"
+    how = rng.choice(["length", "name", "edge", "width"])
+    c = rng.randrange(len(out["edges"]))
+    e = out["edges"][c]
+    if how == "length":
+        # same number of bins, one chromosome one base longer or shorter
+        if e[-1] - e[-2] > 1 and rng.random() < 0.5:
+            e[-1] -= 1
+        else:
+            e[-1] += 1
+    elif how == "name":
+        out["names"][c] = out["names"][c] + "_alt"
+    elif how == "edge" and len(e) > 2:
+        k = rng.randrange(1, len(e) - 1)
+        if e[k] - e[k - 1] > 1:
+            e[k] -= 1
+        elif e[k + 1] - e[k] > 1:
+            e[k] += 1
+        else:
+            e[-1] += 1
+    else:
+        out["edges"] = [[2 * x for x in ee] for ee in out["edges"]]
+    return out
+
+
 # ===========================================================================
 # C07: merge histories
 # ===========================================================================
@@ -184,12 +213,16 @@ def gen_c07(rng, fs, i, cfg):
             for ch in op["chunks"]:
                 ch["count"] = [rng.randint(2**29, 2**30 + 2**29) for _ in ch["count"]]
         r = rng.random()
-        if r < 0.08:
-            # an incompatible input: other layout or other storage mode
-            if rng.random() < 0.5:
+        if r < 0.10:
+            # an incompatible input of every kind: unrelated layout, other storage mode, or a
+            # near miss (one length, one name, one inner edge, the bin width changed)
+            rr = rng.random()
+            if rr < 0.2:
                 op = _same_layout_create(rng, cfg, gen.gen_layout(rng, 3, 6), symm, spec, 20)
-            else:
+            elif rr < 0.4:
                 op = _same_layout_create(rng, cfg, lay, not symm, spec, 20)
+            else:
+                op = _same_layout_create(rng, cfg, perturb_layout(rng, lay), symm, spec, 20)
         fid = rng.choice(["f0", "f1"])
         path = "/in%d" % k if rng.random() < 0.8 else "/"
         if path == "/" and fid in fs.files and fs.files[fid].coll is not None:
